@@ -28,18 +28,20 @@ EXTENDS Integers, Sequences, TLC
 
 CONSTANTS Digits,     \* the digit symbols enumerated, e.g. {48, 49, 53, 57}
           MaxLen,
-          Variant,    \* "repo": parse_decimal as in the repository
+          Variants,   \* subset of {"repo", "float"}: which parsers are explored
+                      \* "repo": parse_decimal as in the repository
                       \* "float": the proposed fix (float(ii) only)
           Emit        \* TRUE: print every numeral with the model's result
 
 Minus == 45
 Dot == 46
 
-VARIABLES num,    \* the numeral
+VARIABLES variant,
+          num,    \* the numeral
           stage,  \* "build" -> "parsed"
           res     \* result of the parser
 
-vars == <<num, stage, res>>
+vars == <<variant, num, stage, res>>
 
 None == [k |-> "none"]
 Err  == [k |-> "err"]
@@ -112,22 +114,22 @@ ParseRepo(ii) ==
               ELSE Val(i < 0, Abs(i), 1)                          \* float(i) + 0; int has no -0
 
 Parse(ii) ==
-    IF Variant = "repo" THEN ParseRepo(ii)
+    IF variant = "repo" THEN ParseRepo(ii)
     ELSE IF Len(ii) = 0 THEN None ELSE PyFloat(ii)
 
 -----------------------------------------------------------------------------
-Init == num = <<>> /\ stage = "build" /\ res = None
+Init == variant \in Variants /\ num = <<>> /\ stage = "build" /\ res = None
 
 Extend(c) ==
     /\ stage = "build" /\ Len(num) < MaxLen
     /\ num' = Append(num, c)
-    /\ UNCHANGED <<stage, res>>
+    /\ UNCHANGED <<variant, stage, res>>
 
 DoParse ==
     /\ stage = "build"
     /\ res' = Parse(num)
     /\ stage' = "parsed"
-    /\ UNCHANGED num
+    /\ UNCHANGED <<variant, num>>
 
 Next == (\E c \in Digits \cup {Minus, Dot} : Extend(c)) \/ DoParse
 
@@ -140,7 +142,7 @@ TypeOK == res.k \in {"none", "err", "val"} /\ Len(num) <= MaxLen
 Small == res.k = "val" => res.num < 1000000 /\ res.den <= 1000000
 
 (* C18 on the model *)
-Correct == (stage = "parsed" /\ WellFormed(num)) => SameValue(res, Value(num))
+Correct == (stage = "parsed" /\ variant = "float" /\ WellFormed(num)) => SameValue(res, Value(num))
 
 (* the exact extent of the defect mirrored by Variant = "repo": a negative
    numeral with an integer part and, if there is a point, fraction digits,
@@ -156,7 +158,7 @@ SignClass(ii) ==
        /\ (DigitsVal(fp) # 0 \/ DigitsVal(ip) = 0)
 
 Characterization ==
-    (stage = "parsed" /\ WellFormed(num)) =>
+    (stage = "parsed" /\ variant = "repo" /\ WellFormed(num)) =>
         ((~SameValue(res, Value(num))) <=> SignClass(num))
 
 (* numerals float() rejects must not be given a value (informational: the
@@ -166,8 +168,8 @@ Lenient == stage = "parsed" /\ Len(num) > 0 /\ ~WellFormed(num) /\ res.k # "err"
 (* collect instead of stop: always TRUE *)
 Collect ==
     /\ (stage = "parsed" /\ WellFormed(num) /\ ~SameValue(res, Value(num))) =>
-           PrintT(<<"FAILNUM", num, res, IF SignClass(num) THEN "sign" ELSE "other">>)
-    /\ Lenient => PrintT(<<"LENIENT", num, res>>)
+           PrintT(<<"FAILNUM", variant, num, res, IF SignClass(num) THEN "sign" ELSE "other">>)
+    /\ Lenient => PrintT(<<"LENIENT", variant, num, res>>)
 
-EmitNum == (Emit /\ stage = "parsed") => PrintT(<<"NUM", num, res>>)
+EmitNum == (Emit /\ stage = "parsed" /\ variant = "repo") => PrintT(<<"NUM", num, res>>)
 =============================================================================
